@@ -625,3 +625,10 @@ pub fn run(ctx: &Ctx) -> Vec<Eng> {
     run_fixed(&mut e2, false);
     vec![e1, e2]
 }
+
+/// One n-ary case (sum, product, newest-of; f32 and Quantity payloads) judged against the
+/// reference; used by C16 with poisoned scratch arrays.
+pub fn nary_case(n: usize, cats: &[In], times: &[i64], eng: &mut Eng) {
+    let mut j = Judge { eng, time_only: false };
+    nary_dispatch(n, cats, times, &mut j);
+}
